@@ -131,7 +131,7 @@ PROPS["C10"] = {
 # the source translator's part of the tie: per property, the extra property file whose theorems state that the
 # Go functions translated on this run (coq/Gen/Src*.v, by tools/globalsgen srcgen.go) equal the model's functions
 SOURCE_TIE = {
-    "C01": ("C01_source", "jwt.Decode with loadClaims and parseHeaders (accepts exactly what the model's decode accepts, same kind and issuer), jwt.DecodeGeneric (accepts exactly what the model's decode_generic accepts - the layout the header's algorithm names, verified by the translated ClaimsData.verify - and hands back the payload with the version-1 kind and tags re-homed in the version-1 layout only), ClaimsData.verify, identifier.Version; the unknown functions they consult pinned by name"),
+    "C01": ("C01_source", "jwt.Decode with loadClaims and parseHeaders (accepts exactly what the model's decode accepts, same kind and issuer), jwt.DecodeGeneric (accepts exactly what the model's decode_generic accepts - the layout the header's algorithm names, verified by the translated ClaimsData.verify - and hands back the payload with the version-1 kind and tags re-homed in the version-1 layout only), ClaimsData.verify, identifier.Version; the two authorization loaders (accepted claims report the version that was dispatched on and are what was unmarshalled); the unknown functions they consult pinned by name"),
     "C04": (["C04_source", "C01_source"], "the four version-1 migrations v1OperatorClaims / v1AccountClaims / v1UserClaims / v1ActivationClaims .migrateV1 (Properties/C04_source.v: which field of the version-2 claims receives what, in order, and that nothing else is written - the opaque type instantiated by the log of the stores); jwt.DecodeGeneric's re-homing (Properties/C01_source.v, C01_source_decode_generic: in the version-1 layout, and only there, a data map is made if the payload had none and the top-level kind and tags are stored into it when there are any; nothing else of the unmarshalled payload is touched)"),
     "C02": (["C02_source", "C02_source_encode", "C02_source_prefixes"], "ExpectedPrefixes() of the seven kinds (a fresh list of constants, equal to the generated role table); the six typed decoders (each against the model's decode_typed), identifier.Kind; on the Encode side ClaimsData.doEncode's role rule and every kind's Encode (refusing whenever the model's encode_gate refuses)"),
     "C05": (["C05_source", "C05_source_encode", "C05_source_codec", "C01_source"], "loadOperator / loadAccount / loadUser / loadActivation (any version but 1 and 2 refused before the payload is looked at, whatever json.Unmarshal and Migrate are; what is done for versions 1 and 2, in order; the functions consulted pinned); jwt.DecodeGeneric (three segments, valid header, no other gate: Properties/C01_source.v); decodeString / encodeToString / serialize of both packages (the unpadded base64url codec and json.Marshal, nothing around them) and the updateVersion of the six typed kinds; Header.Valid, parseHeaders, loadClaims; on the Encode side ClaimsData.doEncode (version-2 algorithm only, three segments, signature over header-dot-claims)"),
